@@ -63,6 +63,11 @@ def build_world(ctx, rng, base, git):
     (proj / "docs2").mkdir(exist_ok=True)
     os.symlink(str(sent / "outside.py"), proj / "docs2" / "nested_link.py")
     (proj / "docs2" / "real.py").write_text("y = 2\n")
+    # siblings whose names merely start like a directory that gets named on the command line
+    (proj / "docs2-legacy" / "deep").mkdir(parents=True)
+    (proj / "docs2-legacy" / "old.py").write_text("o = 1\n")
+    (proj / "docs2-legacy" / "deep" / "older.py").write_text("o = 2\n")
+    (proj / "docs2.cfg").write_text("[x]\n")
     (proj / "readonly.py").write_text("z = 3\n")
     os.chmod(proj / "readonly.py", 0o444)
     (proj / "LICENSE").write_text("licence blurb\n")
@@ -84,7 +89,8 @@ def build_world(ctx, rng, base, git):
         ignored = {"gen.ign", "build/out.py", "docs2/also.ign"}
         trees.git(proj, "add", "-A", check=False)
         trees.git(proj, "commit", "-q", "-m", "init", check=False)
-    covered = set(trees.spec_expect(recipe)["covered"]) | {"docs2/real.py", "readonly.py", "notes.unknownext"}
+    covered = set(trees.spec_expect(recipe)["covered"]) | {"docs2/real.py", "readonly.py", "notes.unknownext", "docs2-legacy/old.py",
+                                                            "docs2-legacy/deep/older.py", "docs2.cfg"}
     if git:
         covered.add(".gitignore")
     return proj, sent, recipe, covered, ignored
@@ -270,9 +276,10 @@ def run_case(case, ctx):
                     ctx.count("strace_mutating_syscalls", len(muts))
                     ok = judge(res, base, proj, before, after, muts, allowed, label, cmd, git, via="strace")
                 else:
+                    cwd = rng.choice([proj, proj, proj / "docs2", sent])
                     FS.begin()
                     try:
-                        r = run_cli(args, cwd=str(proj))
+                        r = run_cli(args, cwd=str(cwd))
                     finally:
                         events = FS.end()
                     after = snapshot(base, with_ctime=True)
